@@ -56,7 +56,17 @@ def make_canary(unit, meta, text):
         if it["kind"] != "fn":
             continue
         seg = b[it["emit_bytes"][0]:it["emit_bytes"][1]].decode("utf-8")
-        toks = extract.lex(seg)
+        # mask the inserted (sentinel bracketed) regions: contracts may contain braces
+        masked, pos0 = [], 0
+        while True:
+            a = seg.find(extract.S_OPEN, pos0)
+            if a < 0:
+                masked.append(seg[pos0:]); break
+            e = seg.find(extract.S_CLOSE, a) + len(extract.S_CLOSE)
+            masked.append(seg[pos0:a]); masked.append("".join(ch if ch == "\n" else " " * len(ch.encode("utf-8")) for ch in seg[a:e]))
+            pos0 = e
+        mseg = "".join(masked)
+        toks = extract.lex(mseg)
         try:
             he = extract.fn_header_end(toks)
         except Exception:
